@@ -370,3 +370,34 @@ pub fn m_replay_expression() {
         assert!((g - w).abs() <= 1e-9 * scale.max(w.abs()) || g == w);
     }
 }
+
+/// totality of glue + parser + interpreter on a token list over {number,+,-,*,/,(,),word,zone}: must return (Ok or Err)
+#[cfg(not(kani))]
+pub fn m_replay_token_pipeline() {
+    let n: u8 = vany();
+    vassume(n >= 1 && n <= 8);
+    let mut shape = [0u8; 8];
+    let mut i = 0usize;
+    while i < n as usize { let c: u8 = vany(); vassume(c < 9); shape[i] = c; i += 1; }
+    let mut xs = [0f64; 8];
+    let mut k = 0usize;
+    i = 0;
+    while i < n as usize { if shape[i] == 0 { xs[k] = vany(); k += 1; } i += 1; }
+    let cfg = blank_config();
+    let s = Session::new();
+    let mut tk = mk_tokinizer(&cfg, &s);
+    let mut k2 = 0usize;
+    i = 0;
+    while i < n as usize {
+        let t = match shape[i] { 0 => { k2 += 1; TokenType::Number(xs[k2 - 1], NumberType::Decimal) }, 1 => TokenType::Operator('+'), 2 => TokenType::Operator('-'),
+            3 => TokenType::Operator('*'), 4 => TokenType::Operator('/'), 5 => TokenType::Operator('('), 6 => TokenType::Operator(')'),
+            7 => TokenType::Text("word".to_string()), _ => TokenType::Timezone("UTC".to_string(), 0) };
+        tk.tokens.push(Rc::new(t));
+        i += 1;
+    }
+    crate::tokinizer::verif_k_local::missing_token_adder(&mut tk);
+    let mut p = SyntaxParser::new(&s, &tk);
+    if let Ok(ast) = p.parse() { let _ = Interpreter::execute(&cfg, Rc::new(ast), &s); }
+}
+#[cfg(kani)]
+pub fn m_replay_token_pipeline() {}
